@@ -821,6 +821,14 @@ pub fn run_c16_case(bytes: &[u8], tier: Tier) -> Outcome {
                 filt(a + 100)
             }),
         });
+        // decoder 4: half of the cases keep the shared nodes observed on their own for the whole
+        // case, so that they are recomputed (and change) while the operator's output is unobserved
+        let _shared_obs = if crate::choice::dv() >= 4 && ch.flag(1, 2) {
+            trace.push("(the shared nodes have an observer of their own throughout)".into());
+            Some((outer.shared.observe(), outer.shared_opt.observe()))
+        } else {
+            None
+        };
         let cut = || match cutoff {
             1 => Cutoff::PartialEq,
             3 => Cutoff::Fn(|a: &i32, b: &i32| a.rem_euclid(2) == b.rem_euclid(2)),
@@ -833,7 +841,10 @@ pub fn run_c16_case(bytes: &[u8], tier: Tier) -> Outcome {
         // per-key functions that also read an outer variable, when that variable changes (they
         // then recompute on the stored value).
         let mut seen: BTreeMap<i32, i32> = BTreeMap::new();
-        let mut a_at_processed: Option<i32> = None;
+        // value held by the node of the outer variable `a` (it only follows the variable while something
+        // needs it), and whether it changed since the operator last processed its input
+        let mut a_node: Option<i32> = None;
+        let mut a_changed = false;
         let vb_map = st.var(cur.clone());
         let vo_map = st.var(<OrdMap<i32, i32> as TM>::of(&cur));
         let observe: Box<dyn Fn() -> Reader> = match (ord, filter) {
@@ -929,6 +940,10 @@ pub fn run_c16_case(bytes: &[u8], tier: Tier) -> Outcome {
                 fails.push(Failure { prop: "C16", clause: "panic", msg: format!("step {step}: stabilise panicked: {m}") });
                 return;
             }
+            if (reader.is_some() || _shared_obs.is_some()) && a_node != Some(av) {
+                a_node = Some(av);
+                a_changed = true;
+            }
             let Some(rd) = &reader else {
                 if calls.iter().any(|c| c.0 != "shared") {
                     fails.push(Failure { prop: "C17", clause: "work-while-unobserved", msg: format!("step {step}: output unobserved but user functions ran: {calls:?}") });
@@ -937,7 +952,7 @@ pub fn run_c16_case(bytes: &[u8], tier: Tier) -> Outcome {
                 continue;
             };
             let got = rd();
-            let outer_a_changed = a_at_processed != Some(av);
+            let outer_a_changed = a_changed;
             for (k, v) in cur.iter() {
                 let catch_up = match processed.as_ref().and_then(|p| p.get(k)) {
                     None => true,
@@ -948,7 +963,7 @@ pub fn run_c16_case(bytes: &[u8], tier: Tier) -> Outcome {
                 }
             }
             seen.retain(|k, _| cur.contains_key(k));
-            a_at_processed = Some(av);
+            a_changed = false;
             let want: BT = cur
                 .iter()
                 .filter_map(|(k, _)| {
